@@ -7,6 +7,7 @@ def clip(s, n):
     s = re.sub(r"\s+", " ", s or "").replace("|", "/")
     return s if len(s) <= n else s[:n - 1] + "…"
 nd = 0
+no = 0
 for d in sorted(glob.glob(V + "/seeded/C*-v*")):
     name = os.path.basename(d)
     m = json.load(open(d + "/meta.json"))
@@ -17,12 +18,15 @@ for d in sorted(glob.glob(V + "/seeded/C*-v*")):
         det = re.sub(r"; first: .*$", "", det)
         det = re.sub(r"/tmp/seedrun\.\w+/", "", det)
         verdict = "VIOLATION: " + clip(det, 150)
+    elif m.get("obsolete"):
+        verdict = "obsolete: " + clip(m["obsolete"], 150)
+        no += 1
     elif not r:
         verdict = "(not run)"
     else:
         verdict = "MISSED (exit %s)" % r.get("exit")
     rows.append("| %s | `%s` %s | %s | %s |" % (name, clip(m.get("file", ""), 60), clip(m.get("function", ""), 70), clip(m.get("needs_to_manifest", ""), 170), verdict))
-table = "\n".join(rows) + "\n\n%d of %d seeded changes are rejected by the quick check of the property they were written against.\n" % (nd, len(rows) - 2)
+table = "\n".join(rows) + "\n\n%d of %d seeded changes are rejected by the quick check of the property they were written against.\n" % (nd, len(rows) - 2 - no)
 p = V + "/DESIGN.md"
 s = open(p).read()
 if "SEEDTABLE-BEGIN" in s:
